@@ -57,6 +57,7 @@ type launchRec struct {
 	NumInst  int       `json:"insts"`
 	Digest   string    `json:"digest"`
 	packet   *kernels.HsaKernelDispatchPacket
+	pktAddr  uint64
 	wfs      map[wfKey]*wfRec
 	opcounts map[string]int
 }
@@ -74,6 +75,7 @@ type instTracer struct {
 
 func newInstTracer(dumpKey string) *instTracer {
 	return &instTracer{
+		launches: []*launchRec{},
 		byPacket: map[*kernels.HsaKernelDispatchPacket]*launchRec{},
 		byWf:     map[*kernels.Wavefront]*wfRec{},
 		inflight: map[string]bool{},
@@ -94,7 +96,7 @@ func (t *instTracer) rec(wf *kernels.Wavefront) (*launchRec, *wfRec, bool) {
 			Grid:    [3]uint32{p.GridSizeX, p.GridSizeY, p.GridSizeZ},
 			WG:      [3]uint16{p.WorkgroupSizeX, p.WorkgroupSizeY, p.WorkgroupSizeZ},
 			Entry:   entryPC(wf),
-			packet:  p, wfs: map[wfKey]*wfRec{}, opcounts: map[string]int{},
+			packet:  p, pktAddr: wf.PacketAddress, wfs: map[wfKey]*wfRec{}, opcounts: map[string]int{},
 		}
 		l.Desc = fmt.Sprintf("grid=%dx%dx%d wg=%dx%dx%d kobj=%x kernarg=%x pkt=%x",
 			p.GridSizeX, p.GridSizeY, p.GridSizeZ, p.WorkgroupSizeX, p.WorkgroupSizeY, p.WorkgroupSizeZ,
@@ -214,4 +216,16 @@ func (t *instTracer) finish() map[string]interface{} {
 		per[fmt.Sprint(l.Ordinal)] = map[string]interface{}{"desc": l.Desc, "wfs": tbl, "opcounts": l.opcounts}
 	}
 	return per
+}
+
+// roles maps the device addresses the driver allocated for a launch (code object, kernel arguments, AQL packet)
+// to their role, so that data buffers can be told from launch-internal ones.
+func (t *instTracer) roles() map[uint64]string {
+	r := map[uint64]string{}
+	for _, l := range t.launches {
+		r[l.packet.KernelObject] = "code"
+		r[l.packet.KernargAddress] = "kernarg"
+		r[l.pktAddr] = "packet"
+	}
+	return r
 }
